@@ -36,9 +36,14 @@ impl WorkerHandleAccept {
                 r matches Err(c) ==> c == conn,
     { unimplemented!() }
 
-    /// `Counter::inc` on the shared atomic: the result depends on the other thread (contract proved by Kani,
-    /// unit server_counter)
+    /// the value the next `inc_counter()` on this handle returns.  It depends on the other thread (`Counter::inc`
+    /// on the shared atomic, contract proved by Kani in unit server_counter), so it is an arbitrary but named value;
+    /// naming it lets a postcondition say which way the caller branched on it.  (A function that called
+    /// `inc_counter` twice would see the same value twice: one call per verified function is assumed.)
+    pub uninterp spec fn inc_result(&self) -> bool;
+
     #[verifier::external_body]
     pub fn inc_counter(&self) -> (r: bool)
+        ensures r == self.inc_result(),
     { unimplemented!() }
 }
